@@ -1,6 +1,6 @@
 #!/bin/bash
 # run every check's quick tier against every behaviour-preserving variant; all must exit 0
-cd /verif
+cd "$(dirname "$0")/.."
 for v in selftest/variants/*.patch; do
   tools/selftest.py $v C01,C02,C03,C04,C05,C06,C07,C08,C09,C10,C11,C12,C13,C14,C15,C16,C17,C18 --expect 0 2>&1 | grep -v "^    C" 
 done
